@@ -1,4 +1,6 @@
 pub mod c01;
+pub mod c09;
+pub mod c15;
 pub mod common;
 pub mod concprops;
 pub mod crashprops;
@@ -13,8 +15,10 @@ pub fn all() -> Vec<Box<dyn Prop>> {
         Box::new(c01::C01),
         Box::new(seqprops::C02),
         Box::new(seqprops::C03),
+        Box::new(c09::C09),
         Box::new(seqprops::C10),
         Box::new(seqprops::C11),
+        Box::new(c15::C15),
         Box::new(seqprops::C16),
         Box::new(crashprops::C04),
         Box::new(crashprops::C05),
